@@ -398,7 +398,8 @@ class MTCoherenceAnalyzer(BaseAnalyzer):
 
     @desc.setattr_on_read
     def frequencies(self):
-        return np.linspace(0, self.input.sampling_rate / 2, self._L)
+        return (np.fft.rfftfreq(self.input.data.shape[-1]) *
+                self.input.sampling_rate)
 
 
 class SparseCoherenceAnalyzer(BaseAnalyzer):
